@@ -139,8 +139,18 @@ def gen_cases(rng, n, quick):
             scheds.append({v: rng.choice(allsp[v]) for v in vs})
         objs, evs, rels = [], [], []
         fac = rng.choice(["StlDenseTimeSpecification", "StlDenseTimeOnlineSpecification"])
+        modtext = None
+        if rng.random() < 0.12:
+            # the same monitor written with named sub-specifications (assertions of their own that later assertions refer to): one
+            # more way in which an operator is reached twice within one update() (seed r9 C05-2: memo cleared per assertion)
+            from modular import decompose
+            subs_, main_, _cd, _nm = decompose(rng, phi, S, consts=False)
+            if subs_:
+                modtext = " ; ".join(subs_ + ["out = " + main_])
         for k, sc in enumerate(scheds):
             objs.append(ct_obj(phi, S, vs, factory=fac))
+            if modtext:
+                objs[-1]["text"] = modtext
             evs.append(ev_parse(k + 1))
             if kind == "future":
                 evs.append(ev_pastify(k + 1))
